@@ -196,6 +196,15 @@ def monOp (op : String) (args : List String) : Option String :=
       pure ((d, v), ts)) nq ts
     some (verdict (monClaim until_ cursor lps paid (if hasQ then some q else none)))
   | "mon_claim_rejected" => some "viol C06-claim-blocked"
+  | "mon_auth" => do
+    -- <variant> <accepted> <isOwner> <isPending> <pendingExpired> <withFunds>
+    let (v, ts) ← pTok args
+    let (xs, _) ← pRepeat pBit 5 ts
+    match xs with
+    | [acc, isOwner, isPending, expired, funds] =>
+      let allowed := !funds && (if v == "accept" then isPending && !expired else isOwner)
+      some (if acc == allowed then "ok" else if acc then "viol C15-unauthorised-accepted" else "viol C15-authorised-rejected")
+    | _ => none
   | "mon_fault_outcome" => do
     -- an injected internal failure that is reached must abort the transaction, except the refund of
     -- a farm being closed (manual close, or automatic close when a farm is created)
